@@ -4,6 +4,7 @@ import MtailVerif.Driver.C09
 import MtailVerif.Driver.C21
 import MtailVerif.Driver.C10
 import MtailVerif.Driver.C12
+import MtailVerif.Driver.C13
 /-! `mtailmodel <prop>`: reads the case lines written by the Go harness on stdin and prints
     `<id> OBS <observation>` computed by the Lean model.  Core Lean only (links as an exe). -/
 open MtailVerif MtailVerif.Driver
@@ -16,6 +17,7 @@ def handlerFor (prop : String) : Option (List String → String) :=
   | "C21" => some C21.handle
   | "C10" => some C10.handle
   | "C12" => some C12.handle
+  | "C13" => some C13.handle
   | _ => none
 
 partial def loop (h : IO.FS.Stream) (out : IO.FS.Stream) (f : List String → String) : IO Unit := do
